@@ -11,6 +11,8 @@
 #include "IO/ProgramOptions.hpp"
 
 #include <array>
+#include <iomanip>
+#include <limits>
 #include <utility>
 
 namespace {
@@ -415,6 +417,9 @@ bool vfps::ProgramOptions::parse(int ac, char** av)
 void vfps::ProgramOptions::save(std::string fname)
 {
     std::ofstream ofs(fname.c_str());
+
+    // enough digits to read back exactly the values that were used
+    ofs << std::setprecision(std::numeric_limits<double>::max_digits10);
 
     ofs << "# " << vfps::inovesa_version() << std::endl;
 
